@@ -150,6 +150,40 @@ impl C17 {
         }
     }
 
+    fn below_fixed(&self, ctx: &mut Ctx, kind: usize, w: &[u8], size: usize) {
+        let (typ, fixed, name) = KINDS[kind];
+        // the tag is followed by a tag whose bytes look like text + NUL
+        let mut t = vec![0xEEu8; round8(size)];
+        put32(&mut t, 0, typ);
+        put32(&mut t, 4, size as u32);
+        let mut m = MbiBuf::new();
+        m.push_raw(&t);
+        let mut nb = b"SECRET".to_vec();
+        nb.extend_from_slice(w);
+        nb.push(0);
+        m.push(0x5345_4352, &nb);
+        let bytes = m.finish();
+        let reg = Region::new(ctx.placement, &bytes);
+        ctx.eval();
+        let r = catch(|| {
+            let bi = unsafe { BootInformation::load(reg.ptr().cast::<BootInformationHeader>()) }.expect("loads");
+            match kind {
+                0 => bi.command_line_tag().map(|t| t.cmdline().map(|s| s.len()).map_err(|_| ())),
+                1 => bi.boot_loader_name_tag().map(|t| t.name().map(|s| s.len()).map_err(|_| ())),
+                _ => bi.module_tags().next().map(|t| t.cmdline().map(|s| s.len()).map_err(|_| ())),
+            }
+        });
+        match r {
+            Out::Panic(_) => ctx.count("below-fixed:rejected"),
+            Out::Val(Some(Err(()))) => ctx.count("below-fixed:error"),
+            Out::Val(None) => ctx.count("below-fixed:none"),
+            Out::Val(Some(Ok(n))) => ctx.violation(
+                &format!("parse:{}:text-from-beyond-declared-size(below-fixed)", name),
+                J::obj(vec![("kind", J::s(name)), ("declared_size", J::u(size as u64)), ("fixed_part", J::u(fixed as u64)), ("returned_text_len", J::u(n as u64)), ("region", J::hex(&bytes))]),
+            ),
+        }
+    }
+
     #[cfg(feature = "builder")]
     fn ctor(&self, ctx: &mut Ctx, s: &str) {
         let b = s.as_bytes();
@@ -203,7 +237,15 @@ impl C17 {
                             ctx.violation(&format!("ctor-ends-in-nul:{}", name), desc(format!("size {} bytes {}", size, hex(&bytes))));
                         }
                     } else {
-                        ctx.count("ctor:interior-nul(unspecified)");
+                        // interior NUL, not ending in NUL: the text does not "already end in
+                        // NUL", so it is stored as given plus one terminator
+                        let mut want = b.to_vec();
+                        want.push(0);
+                        let ok = size == fixed + b.len() + 1 && bytes.len() == size && &bytes[fixed..] == &want[..];
+                        ctx.count("ctor:interior-nul");
+                        if !ok {
+                            ctx.violation(&format!("ctor-interior-nul-unterminated:{}", name), desc(format!("size {} bytes {}", size, hex(&bytes))));
+                        }
                     }
                 }
             }
@@ -234,6 +276,13 @@ impl Driver for C17 {
                     if w.len() <= 3 || (idx % 4 == 0) {
                         self.parse_one(ctx, kind, &w, size, nul_fill, true);
                     }
+                }
+            }
+            // declared sizes below the fixed part: there is no string area inside the
+            // declared size, so no text may come back (error or rejection only)
+            if w.len() >= 2 {
+                for size in 8..fixed {
+                    self.below_fixed(ctx, kind, &w, size);
                 }
             }
             ctx.nontrivial(mix2(hash_bytes(&w), kind as u64));
